@@ -11,6 +11,7 @@ import RV.Base.Proto
     len g                                -> n
     has g s p o                          -> 0 | 1
     tri g s p o                          -> matching triples, sorted, duplicates kept:  s,p,o s,p,o …
+    ulen | utri s p o                    -> the same for the store's union view (context None)
     bin OP g h      (OP = add|sub|mul|xor)  -> triples of the new graph, sorted
     iopen k g s p o                      -> ok            (generator k starts now)
     iyield k s p o                       -> adm | NOT-adm (could the machine yield this triple now?)
@@ -139,6 +140,11 @@ def step (d : DS) : List String → DS × String
     match g.toNat?, pat? a b c with
     | some g, some p => (d, if triplesRaises d.m p then "error" else showTriples (triples d.m p (some g)))
     | _, _ => (d, "bad-op")
+  | ["ulen"] => (d, toString (d.m.len none))
+  | ["utri", a, b, c] =>
+    match pat? a b c with
+    | some p => (d, if triplesRaises d.m p then "error" else showTriples (triples d.m p none))
+    | none => (d, "bad-op")
   | ["bin", op, g, h] =>
     match g.toNat?, h.toNat? with
     | some g, some h =>
